@@ -517,7 +517,7 @@ static void list_visitor(void *ctx, bintree_node_t *n)
 {
 	(void)ctx;
 	if (nlv < 64)
-		lv[nlv++] = ((tnode_t *)n)->id;
+		lv[nlv++] = n ? ((tnode_t *)n)->id : -1; /* -1: the visitor was handed an empty link */
 }
 
 static void lists(void)
@@ -526,11 +526,18 @@ static void lists(void)
 	long long caseno = 0;
 	for (int leaning = 0; leaning < 2; leaning++)
 		for (int len = 0; len <= maxlen; len++)
-			for (int elemstyle = 0; elemstyle < 3; elemstyle++, caseno++) {
+			for (int es = 0; es < 6; es++, caseno++) {
+				/* nullterm: a right-leaning spine that ends cons-cell style, with an empty right link
+				 * instead of a last element (both the traversal and the iterator accept it) */
+				int elemstyle = es % 3, nullterm = es / 3;
+				if (nullterm && (leaning == 0 || len == 0))
+					continue;
 				if ((caseno % vh_opt.nproc) != vh_opt.proc)
 					continue;
+				int nel = nullterm ? len : len + 1;
 				char key[64];
-				snprintf(key, sizeof(key), "lists:%s,len=%d,elems=%d", leaning ? "right" : "left", len, elemstyle);
+				snprintf(key, sizeof(key), "lists:%s,len=%d,elems=%d%s", leaning ? "right" : "left", len, elemstyle,
+					 nullterm ? ",nil-terminated" : "");
 				vh_case_key(key);
 				vh_case_replay("--extra %s", vh_opt.extra);
 				/* len list nodes -> len+1 elements; len==0: a single element.
@@ -541,7 +548,7 @@ static void lists(void)
 				int spine[16], elems[16];
 				for (int i = 0; i < len; i++)
 					spine[i] = id++;
-				for (int i = 0; i <= len; i++)
+				for (int i = 0; i < nel; i++)
 					elems[i] = id++;
 				nnodes = id;
 				for (int i = 0; i < 64; i++)
@@ -556,11 +563,11 @@ static void lists(void)
 				} else {
 					for (int i = 0; i < len; i++) {
 						L[spine[i]] = elems[i];
-						Rr[spine[i]] = i + 1 < len ? spine[i + 1] : elems[len];
+						Rr[spine[i]] = i + 1 < len ? spine[i + 1] : nullterm ? -1 : elems[len];
 					}
 				}
 				if (elemstyle)
-					for (int i = 0; i <= len; i++) {
+					for (int i = 0; i < nel; i++) {
 						if (elemstyle == 1 || (i & 1))
 							L[elems[i]] = extra++;
 						if (elemstyle == 2)
@@ -571,7 +578,8 @@ static void lists(void)
 					if (L[i] >= nnodes || Rr[i] >= nnodes)
 						abort();
 				describe_shape();
-				vh_case_desc("%s-leaning list of %d list nodes: %s", leaning ? "right" : "left", len, shape_desc);
+				vh_case_desc("%s-leaning %slist of %d list nodes: %s", leaning ? "right" : "left", nullterm ? "nil-terminated " : "", len,
+					     shape_desc);
 				link_all();
 				for (int i = 0; i < len; i++)
 					nodes[spine[i]]->is_list = true;
@@ -602,8 +610,13 @@ static void lists(void)
 					vh_violation(k2, vh_cur_replay, "iterator yielded %d elements, traversal %d | %s", k, nlv, vh_cur_case);
 					ok = false;
 				}
-				/* expected element order by construction: elems[0..len] */
-				for (int i = 0; ok && i <= len; i++)
+				/* expected element order by construction: elems[0..nel-1] */
+				if (ok && nlv != nel) {
+					vh_violation("list-traversal-unexpected", vh_cur_replay, "traverse_list visited %d elements of a list built with %d | %s",
+						     nlv, nel, vh_cur_case);
+					ok = false;
+				}
+				for (int i = 0; ok && i < nel; i++)
 					if (lv[i] != elems[i]) {
 						vh_violation("list-traversal-unexpected", vh_cur_replay, "traverse_list element %d is node %d, built as %d | %s",
 							     i, lv[i], elems[i], vh_cur_case);
@@ -613,8 +626,10 @@ static void lists(void)
 					restored("list");
 				vh_evaluations++;
 				VH_COUNT("list_spines_compared");
+				if (nullterm)
+					VH_COUNT("list_spines_nil_terminated");
 				if (len >= 2)
-					vh_distinct(vh_mix(vh_mix(0x1157, (uint64_t)leaning), (uint64_t)len * 4 + (uint64_t)elemstyle));
+					vh_distinct(vh_mix(vh_mix(0x1157, (uint64_t)leaning), (uint64_t)len * 8 + (uint64_t)es));
 				if (vh_want_sample() && len == 3 && elemstyle == 0)
 					vh_sample("%s", vh_cur_case);
 				free_remaining();
